@@ -61,7 +61,7 @@ Record cstate := {
 }.
 
 Inductive cerr := ErrUndefinedVar | ErrUnknownOperator | ErrUnsupportedExpression | ErrRangeType
-                | ErrMake | ErrUnsupportedNode.
+                | ErrOperandRange | ErrUnsupportedNode.
 Inductive cres := COk (st : cstate) | CErr (e : cerr).
 
 Definition bind (r : cres) (f : cstate -> cres) : cres :=
@@ -73,40 +73,47 @@ Definition cinit : cstate := {| ccode := []; cconsts := []; csym := new_symtab; 
 
 Definition pos_of (st : cstate) : Z := Z.of_nat (List.length (ccode st)).
 
-(* emit / emitPos / addInstruction *)
-Definition emit (o : opc) (operands : list Z) (st : cstate) : cres :=
-  match make (N_of_opc o) operands with
+(* emit / emitPos / addInstruction.  [strict = true] is the tree at HEAD
+   (Make fails with ErrOperandRange on an operand beyond 16 bits; lookups of
+   the compiler's own opcodes never fail), [strict = false] the tree before
+   the fixes e02ff38/e351c68 (silent truncation). *)
+Definition emit (strict : bool) (o : opc) (operands : list Z) (st : cstate) : cres :=
+  match (if strict then make else make_before_fix) (N_of_opc o) operands with
   | Some ins => COk {| ccode := ccode st ++ ins; cconsts := cconsts st; csym := csym st; cbreaks := cbreaks st |}
-  | None => CErr ErrMake
+  | None => CErr ErrOperandRange
   end.
 
 (* addConstant followed by emit(OpConstant, index) *)
-Definition emit_const (k : cconst) (st : cstate) : cres :=
+Definition emit_const (strict : bool) (k : cconst) (st : cstate) : cres :=
   let idx := Z.of_nat (List.length (cconsts st)) in
-  emit Constant [idx] {| ccode := ccode st; cconsts := cconsts st ++ [k]; csym := csym st; cbreaks := cbreaks st |}.
+  emit strict Constant [idx] {| ccode := ccode st; cconsts := cconsts st ++ [k]; csym := csym st; cbreaks := cbreaks st |}.
 
 Definition with_sym (s : symtab) (st : cstate) : cstate :=
   {| ccode := ccode st; cconsts := cconsts st; csym := s; cbreaks := cbreaks st |}.
 Definition with_breaks (b : list Z) (st : cstate) : cstate :=
   {| ccode := ccode st; cconsts := cconsts st; csym := csym st; cbreaks := b |}.
-(* Instructions.changeOperand *)
-Definition patch (pos target : Z) (st : cstate) : cstate :=
-  {| ccode := change_operand (Z.to_N pos) target (ccode st); cconsts := cconsts st; csym := csym st; cbreaks := cbreaks st |}.
+(* Instructions.changeOperand (an error at HEAD when the target does not fit) *)
+Definition patch (strict : bool) (pos target : Z) (st : cstate) : cres :=
+  match (if strict then change_operand (Z.to_N pos) target (ccode st)
+         else Some (change_operand_before_fix (Z.to_N pos) target (ccode st))) with
+  | Some code => COk {| ccode := code; cconsts := cconsts st; csym := csym st; cbreaks := cbreaks st |}
+  | None => CErr ErrOperandRange
+  end.
 
 (* emitSetVar *)
-Definition emit_set_var (y : symbol) (st : cstate) : cres :=
+Definition emit_set_var (strict : bool) (y : symbol) (st : cstate) : cres :=
   match sscp y with
-  | GlobalScope => emit SetGlobal [Z.of_N (sidx y)] st
-  | LocalScope => emit SetLocal [Z.of_N (sidx y)] st
+  | GlobalScope => emit strict SetGlobal [Z.of_N (sidx y)] st
+  | LocalScope => emit strict SetLocal [Z.of_N (sidx y)] st
   end.
 
 (* compileVar *)
-Definition compile_var (n : str) (st : cstate) : cres :=
+Definition compile_var (strict : bool) (n : str) (st : cstate) : cres :=
   match st_resolve n (csym st) with
   | None => CErr ErrUndefinedVar
   | Some y => match sscp y with
-              | GlobalScope => emit GetGlobal [Z.of_N (sidx y)] st
-              | LocalScope => emit GetLocal [Z.of_N (sidx y)] st
+              | GlobalScope => emit strict GetGlobal [Z.of_N (sidx y)] st
+              | LocalScope => emit strict GetLocal [Z.of_N (sidx y)] st
               end
   end.
 
@@ -124,16 +131,16 @@ Definition str_binop (op : binop) : option opc :=
   end.
 
 (* the tail of compileBinaryExpression, after both operands are compiled *)
-Definition compile_binop (op : binop) (lt rt : ety) (st : cstate) : cres :=
+Definition compile_binop (strict : bool) (op : binop) (lt rt : ety) (st : cstate) : cres :=
   match op with
-  | BEq => emit Equal [] st
-  | BNe => emit NotEqual [] st
+  | BEq => emit strict Equal [] st
+  | BNe => emit strict NotEqual [] st
   | _ =>
       match lt, rt with
-      | TNum, TNum => match num_binop op with Some o => emit o [] st | None => CErr ErrUnknownOperator end
-      | TStr, TStr => match str_binop op with Some o => emit o [] st | None => CErr ErrUnknownOperator end
-      | TArr, TArr => match op with BPlus => emit ArrConcat [] st | _ => CErr ErrUnsupportedExpression end
-      | TArr, TNum => match op with BStar => emit ArrRepeat [] st | _ => CErr ErrUnsupportedExpression end
+      | TNum, TNum => match num_binop op with Some o => emit strict o [] st | None => CErr ErrUnknownOperator end
+      | TStr, TStr => match str_binop op with Some o => emit strict o [] st | None => CErr ErrUnknownOperator end
+      | TArr, TArr => match op with BPlus => emit strict ArrConcat [] st | _ => CErr ErrUnsupportedExpression end
+      | TArr, TNum => match op with BStar => emit strict ArrRepeat [] st | _ => CErr ErrUnsupportedExpression end
       | _, _ => CErr ErrUnsupportedExpression
       end
   end.
@@ -143,24 +150,24 @@ Fixpoint elist_len (l : elist) : Z := match l with ENil => 0 | ECons _ t => 1 + 
 (* Compile, expression nodes.  [strict]: error instead of the silent default. *)
 Fixpoint compile_expr (strict : bool) (e : expr) (st : cstate) {struct e} : cres :=
   match e with
-  | ENum f => emit_const (KNum f) st
-  | EBool b => emit (if b then OTrue else OFalse) [] st
-  | EStr s => emit_const (KStr s) st
-  | EVar n => compile_var n st
-  | EArr l => compile_elist strict l st >>= emit Array [elist_len l]
-  | EMap kvs np => compile_pairs strict kvs st >>= emit Map [np]
+  | ENum f => emit_const strict (KNum f) st
+  | EBool b => emit strict (if b then OTrue else OFalse) [] st
+  | EStr s => emit_const strict (KStr s) st
+  | EVar n => compile_var strict n st
+  | EArr l => compile_elist strict l st >>= emit strict Array [elist_len l]
+  | EMap kvs np => compile_pairs strict kvs st >>= emit strict Map [np]
   | EUn op e1 =>
       compile_expr strict e1 st >>= fun st1 =>
       match op with
-      | UMinus => emit Minus [] st1
-      | UBang => emit Not [] st1
-      | UOtherOp => if strict then CErr ErrUnsupportedNode else COk st1
+      | UMinus => emit strict Minus [] st1
+      | UBang => emit strict Not [] st1
+      | UOtherOp => if strict then CErr ErrUnknownOperator else COk st1
       end
   | EBin op lt rt l r =>
-      compile_expr strict l st >>= compile_expr strict r >>= compile_binop op lt rt
-  | EIndex l i => compile_expr strict l st >>= compile_expr strict i >>= emit Index []
+      compile_expr strict l st >>= compile_expr strict r >>= compile_binop strict op lt rt
+  | EIndex l i => compile_expr strict l st >>= compile_expr strict i >>= emit strict Index []
   | ESlice l a b =>
-      compile_expr strict l st >>= compile_oexpr strict a >>= compile_oexpr strict b >>= emit Slice []
+      compile_expr strict l st >>= compile_oexpr strict a >>= compile_oexpr strict b >>= emit strict Slice []
   | EGroup e1 => compile_expr strict e1 st
   | EUnsupported _ => if strict then CErr ErrUnsupportedNode else COk st
   end
@@ -172,33 +179,33 @@ with compile_elist (strict : bool) (l : elist) (st : cstate) {struct l} : cres :
 with compile_pairs (strict : bool) (l : eplist) (st : cstate) {struct l} : cres :=
   match l with
   | PNil => COk st
-  | PCons k e t => emit_const (KStr k) st >>= compile_expr strict e >>= compile_pairs strict t
+  | PCons k e t => emit_const strict (KStr k) st >>= compile_expr strict e >>= compile_pairs strict t
   end
 with compile_oexpr (strict : bool) (o : oexpr) (st : cstate) {struct o} : cres :=   (* compileOrEmitNone *)
   match o with
-  | ONoneE => emit ONone [] st
+  | ONoneE => emit strict ONone [] st
   | OSome e => compile_expr strict e st
   end.
 
 Definition JumpPlaceholderZ : Z := Z.of_N JumpPlaceholder.
 
-Definition patch_all (l : list Z) (target : Z) (st : cstate) : cstate :=
-  fold_left (fun s p => patch p target s) l st.
+Definition patch_all (strict : bool) (l : list Z) (target : Z) (st : cstate) : cres :=
+  fold_left (fun r p => r >>= patch strict p target) l (COk st).
 
 (* the loop-variable prologue of compileForStatement *)
-Definition for_declare (lv : option str) (st : cstate) : cres :=
+Definition for_declare (strict : bool) (lv : option str) (st : cstate) : cres :=
   match lv with
   | None => COk st
   | Some n =>
       let (s', y) := st_define n (csym st) in
-      emit ONone [] (with_sym s' st) >>= emit_set_var y
+      emit strict ONone [] (with_sym s' st) >>= emit_set_var strict y
   end.
-Definition for_assign (lv : option str) (st : cstate) : cres :=
+Definition for_assign (strict : bool) (lv : option str) (st : cstate) : cres :=
   match lv with
   | None => COk st
   | Some n => match st_resolve n (csym st) with
               | None => CErr ErrUndefinedVar
-              | Some y => emit_set_var y st
+              | Some y => emit_set_var strict y st
               end
   end.
 
@@ -207,16 +214,16 @@ Fixpoint compile_stmt (strict : bool) (s : stmt) (st : cstate) {struct s} : cres
   match s with
   | SDecl n e =>                                            (* compileDecl *)
       compile_expr strict e st >>= fun st1 =>
-      let (s', y) := st_define n (csym st1) in emit_set_var y (with_sym s' st1)
+      let (s', y) := st_define n (csym st1) in emit_set_var strict y (with_sym s' st1)
   | SAssign target e =>                                     (* compileAssignment *)
       compile_expr strict e st >>= fun st1 =>
       match target with
       | EVar n => match st_resolve n (csym st1) with
                   | None => CErr ErrUndefinedVar
-                  | Some y => emit_set_var y st1
+                  | Some y => emit_set_var strict y st1
                   end
-      | EIndex l i => compile_expr strict l st1 >>= compile_expr strict i >>= emit SetIndex []
-      | _ => compile_expr strict target st1
+      | EIndex l i => compile_expr strict l st1 >>= compile_expr strict i >>= emit strict SetIndex []
+      | _ => if strict then CErr ErrUnsupportedNode else compile_expr strict target st1
       end
   | SIf c b elifs els =>                                    (* compileIfStatement *)
       compile_cond strict c b st >>= fun st1 =>
@@ -224,16 +231,17 @@ Fixpoint compile_stmt (strict : bool) (s : stmt) (st : cstate) {struct s} : cres
       let (r, jumps) := compile_elifs strict elifs [pos_of st1 - 3] st1 in
       r >>= fun st2 =>
       (match els with NoElse => COk st2 | Else eb => compile_block strict eb st2 end) >>= fun st3 =>
-      COk (patch_all jumps (pos_of st3) st3)
+      patch_all strict jumps (pos_of st3) st3
   | SWhile c b =>                                           (* compileWhileStatement *)
       let start := pos_of st in
       compile_expr strict c st >>= fun st1 =>
       let jof := pos_of st1 in
-      emit JumpOnFalse [JumpPlaceholderZ] st1 >>= fun st2 =>
+      emit strict JumpOnFalse [JumpPlaceholderZ] st1 >>= fun st2 =>
       let outer := cbreaks st2 in
-      compile_block strict b (with_breaks [] st2) >>= emit Jump [start] >>= fun st3 =>
+      compile_block strict b (with_breaks [] st2) >>= emit strict Jump [start] >>= fun st3 =>
       let after := pos_of st3 in
-      COk (with_breaks outer (patch_all (cbreaks st3) after (patch jof after st3)))
+      patch strict jof after st3 >>= patch_all strict (cbreaks st3) after >>= fun st4 =>
+      COk (with_breaks outer st4)
   | SForStep lv start stop step b =>                        (* compileForStatement, NUM *)
       compile_expr strict stop st >>=
       compile_expr strict (match step with OSome e => e | ONoneE => ENum 1 end) >>=
@@ -242,12 +250,12 @@ Fixpoint compile_stmt (strict : bool) (s : stmt) (st : cstate) {struct s} : cres
   | SForIter lv t e b =>                                    (* compileForStatement, STRING/ARRAY/MAP *)
       match t with
       | TStr | TArr | TMap =>
-          compile_expr strict e st >>= emit_const (KNum 0) >>= for_loop strict lv IterRange 2 b
+          compile_expr strict e st >>= emit_const strict (KNum 0) >>= for_loop strict lv IterRange 2 b
       | _ => CErr ErrRangeType
       end
   | SBreak =>                                               (* compileBreakStatement *)
       let pos := pos_of st in
-      emit Jump [JumpPlaceholderZ] st >>= fun st1 => COk (with_breaks (cbreaks st1 ++ [pos]) st1)
+      emit strict Jump [JumpPlaceholderZ] st >>= fun st1 => COk (with_breaks (cbreaks st1 ++ [pos]) st1)
   | SEmpty => COk st
   | SBlock b => compile_block strict b st
   | SUnsupported _ => if strict then CErr ErrUnsupportedNode else COk st
@@ -267,13 +275,13 @@ with compile_block (strict : bool) (l : slist) (st : cstate) {struct l} : cres :
 with compile_cond (strict : bool) (c : expr) (b : slist) (st : cstate) {struct b} : cres :=
   compile_expr strict c st >>= fun st1 =>
   let jof := pos_of st1 in
-  emit JumpOnFalse [JumpPlaceholderZ] st1 >>= fun st2 =>
+  emit strict JumpOnFalse [JumpPlaceholderZ] st1 >>= fun st2 =>
   (match b with
    | SNil => COk (with_sym (st_push (csym st2)) st2)
    | SCons s t => compile_stmt strict s (with_sym (st_push (csym st2)) st2) >>= compile_slist strict t
    end) >>= fun st3 =>
-  emit Jump [JumpPlaceholderZ] (with_sym (st_pop (csym st3)) st3) >>= fun st4 =>
-  COk (patch jof (pos_of st4) st4)
+  emit strict Jump [JumpPlaceholderZ] (with_sym (st_pop (csym st3)) st3) >>= fun st4 =>
+  patch strict jof (pos_of st4) st4
 (* the else-if blocks of compileIfStatement; returns the jump positions *)
 with compile_elifs (strict : bool) (l : clist) (jumps : list Z) (st : cstate) {struct l} : cres * list Z :=
   match l with
@@ -286,20 +294,21 @@ with compile_elifs (strict : bool) (l : clist) (jumps : list Z) (st : cstate) {s
   end
 with for_loop (strict : bool) (lv : option str) (rop : opc) (state_size : Z) (b : slist) (st : cstate)
   {struct b} : cres :=
-  for_declare lv st >>= fun st1 =>
+  for_declare strict lv st >>= fun st1 =>
   let top := pos_of st1 in
-  emit rop [match lv with Some _ => 1 | None => 0 end] st1 >>= fun st2 =>
+  emit strict rop [match lv with Some _ => 1 | None => 0 end] st1 >>= fun st2 =>
   let jof := pos_of st2 in
-  emit JumpOnFalse [JumpPlaceholderZ] st2 >>= for_assign lv >>= fun st3 =>
+  emit strict JumpOnFalse [JumpPlaceholderZ] st2 >>= for_assign strict lv >>= fun st3 =>
   let outer := cbreaks st3 in
   (match b with
    | SNil => COk (with_sym (st_push (csym st3)) (with_breaks [] st3))
    | SCons s t => compile_stmt strict s (with_sym (st_push (csym st3)) (with_breaks [] st3)) >>= compile_slist strict t
    end) >>= fun st4 =>
-  emit Jump [top] (with_sym (st_pop (csym st4)) st4) >>= fun st5 =>
+  emit strict Jump [top] (with_sym (st_pop (csym st4)) st4) >>= fun st5 =>
   let end_ := pos_of st5 in
-  emit Drop [state_size] st5 >>= fun st6 =>
-  COk (with_breaks outer (patch_all (cbreaks st6) end_ (patch jof end_ st6))).
+  emit strict Drop [state_size] st5 >>= fun st6 =>
+  patch strict jof end_ st6 >>= patch_all strict (cbreaks st6) end_ >>= fun st7 =>
+  COk (with_breaks outer st7).
 
 (* compileProgram + Bytecode() *)
 Record cbytecode := { out_code : list N; out_consts : list cconst; out_gcount : N; out_lcount : N }.
@@ -310,8 +319,10 @@ Definition bytecode_of (st : cstate) : cbytecode :=
   {| out_code := ccode st; out_consts := cconsts st;
      out_gcount := st_global_count (csym st); out_lcount := st_local_count (csym st) |}.
 
-Definition compile := compile_program false.
-Definition compile_fixed := compile_program true.
+(* the model in force mirrors /repo at HEAD (after e02ff38 and e351c68) *)
+Definition compile := compile_program true.
+(* the compiler as it was before those two fixes: silent default case, 16-bit truncation *)
+Definition compile_before_fix := compile_program false.
 
 (* ---------- the supported subset ---------- *)
 Fixpoint supported_expr (e : expr) : bool :=
@@ -553,7 +564,7 @@ Definition enc_cerr (e : cerr) : sx :=
   Sym (s_ match e with
           | ErrUndefinedVar => "undefined-var" | ErrUnknownOperator => "unknown-operator"
           | ErrUnsupportedExpression => "unsupported-expression" | ErrRangeType => "range-type"
-          | ErrMake => "make" | ErrUnsupportedNode => "unsupported-node"
+          | ErrOperandRange => "operand-range" | ErrUnsupportedNode => "unsupported-node"
           end).
 
 (* (compile strict? (stmt…)) ↦ (ok (byte…) (const…) gcount lcount supported?) | (err kind supported?) *)
